@@ -844,6 +844,34 @@ def run_c06(prop, tier):
             rec = mw.finish()
             records.append(rec)
             runs[tid] = mw
+        # spec -> code for the same configuration: simulated behaviours stepped through a real pair, projection compared
+        common.write_model(wd, "MC_C06_gen_mixed", "TransitRecords", mconsts)
+        simdir = wd.file("sim_mixed")
+        os.makedirs(simdir)
+        tlc.run("MC_C06_gen_mixed.tla", "MC_C06_gen_mixed.cfg", cwd=wd.path, workers=2, simulate={"num": (24 if quick else 240) // 2, "file": os.path.join(simdir, "tr")},
+                depth=24, seed=seed + 9, timeout=600)
+        mdrift = []
+        nmix = 0
+        for tr in tlc.read_sim_traces(os.path.join(simdir, "tr")):
+            tid += 1
+            nmix += 1
+            mw = MixedWalk(tid, "s2r" if tid % 2 else "r2s", random.Random(tid))
+            for i, st in enumerate(tr[1:], start=1):
+                mw.do(tuple(st["last"]))
+                real = mw.lines[-1]["proj"]
+                spec = {"sent": len(st["sent"] or ()), "inflight": len(st["wire"] or ()), "delivered": list(st["delivered"] or ()),
+                        "queued": list(st["queued"] or ()), "reads": st["reads"], "failedReads": st["failedReads"], "rstate": st["rstate"],
+                        "consumerDone": st["consumerDone"], "cattached": st["cattached"]}
+                if real != spec:
+                    if len(mdrift) < 4:
+                        mdrift.append({"tid": tid, "step": i, "action": list(st["last"]),
+                                       "diff": ["%s: spec=%s real=%s" % (k, spec[k], real[k]) for k in spec if spec[k] != real[k]][:4]})
+                    break
+            rec = mw.finish()
+            rec["origin"] = "tlc-sim:mixed"
+            records.append(rec)
+            runs[tid] = mw
+        cov["mixed_spec_to_code"] = {"behaviours": nmix, "drift": mdrift}
         res, r_ = common.trace_validate(wd, "TransitRecords", mconsts, mtraces, MIX_T_PROJ, "MC_C06_trace_mixed")
         for t, (reached, total) in sorted(res.items()):
             tv["walks"] += 1
